@@ -268,3 +268,67 @@ pub fn pure_report_or_same(e: &GenEntry) -> GenEntry {
     }
     e
 }
+
+
+// ---------------------------------------------------------------------------------------------
+// C11 / C10
+
+fn hist_value(u: &mut Unstructured) -> Option<f64> {
+    let b: u64 = u.arbitrary().ok()?;
+    let v = f64::from_bits(b & 0x7fff_ffff_ffff_ffff);
+    // the property's domain: finite, non-negative, below 2^43
+    Some(if v.is_finite() && v < 8.79e12 { v } else { (b % (1u64 << 53)) as f64 / 1024.0 })
+}
+
+pub fn decode_hist_case(u: &mut Unstructured) -> Option<crate::props::c11::Case> {
+    use crate::props::c11::Input;
+    let n = u.int_in_range(0..=12usize).ok()?;
+    let mut inputs = vec![];
+    for _ in 0..n {
+        inputs.push(match u.int_in_range(0..=3u8).ok()? {
+            0 => Input::Fl(F(hist_value(u)?)),
+            1 => Input::U(u.int_in_range(0..=(1u64 << 43) - 1).ok()?),
+            2 => Input::Dur {
+                nanos: u.int_in_range(0..=(1u64 << 50)).ok()?,
+                unit: u.int_in_range(0..=2u8).ok()?,
+            },
+            _ => {
+                let v = hist_value(u)?;
+                let occ = match u.int_in_range(0..=3u8).ok()? {
+                    0 => 0,
+                    1 => 1,
+                    2 => u.int_in_range(2..=50u64).ok()?,
+                    _ => u.int_in_range(2..=(1u64 << 40)).ok()?,
+                };
+                Input::Rep { total: F(v * occ as f64), occ }
+            }
+        });
+    }
+    Some(crate::props::c11::Case { inputs, threads: 0 })
+}
+
+pub fn decode_agg_case(u: &mut Unstructured) -> Option<crate::props::c10::Case> {
+    use crate::props::c10::{In, SinkKind, Step};
+    let kind = if u.arbitrary().ok()? { SinkKind::Keyed } else { SinkKind::Tee };
+    let n = u.int_in_range(0..=40usize).ok()?;
+    let mut steps = vec![];
+    let input = |u: &mut Unstructured| -> Option<In> {
+        Some(In {
+            word: u.int_in_range(0..=4u8).ok()?,
+            n: u.int_in_range(0..=2u8).ok()?,
+            total: u.arbitrary().ok()?,
+            last: u.arbitrary().ok()?,
+            lat_ms: u.int_in_range(0..=1999u16).ok()?,
+            dist: u.int_in_range(0..=49u16).ok()?,
+        })
+    };
+    for _ in 0..n {
+        steps.push(match u.int_in_range(0..=7u8).ok()? {
+            0 => Step::Flush,
+            1 => Step::Guard(input(u)?),
+            2 => Step::DropGuard(u.arbitrary().ok()?),
+            _ => Step::Input(input(u)?),
+        });
+    }
+    Some(crate::props::c10::Case { kind, steps, producers: 0 })
+}
